@@ -21,7 +21,8 @@ import c01gen as G
 LEVEL = "proof"
 NS = "Adept.Expr."
 REQUIRED = ["C01_unary_table_sound", "C01_store_stored", "C01_store_frame", "C01_mul_linear", "C01_grad_linear",
-            "C01_bin_partials", "C01_grad_hasDerivAt", "C01_program_tangent", "C01_adjoint_is_gradient", "C01_values_plain"]
+            "C01_bin_partials", "C01_grad_hasDerivAt", "C01_program_tangent", "C01_adjoint_is_gradient", "C01_values_plain",
+            "C01_branch_is_selected_assignment"]
 EPS = 2.0 ** -52
 TRANSLATE = os.path.join(vbuild.VERIF, "translate")
 
